@@ -33,6 +33,11 @@ pub enum GAttr {
     AltComment(String),
     /// `xmlns:jcmd="urn:example:not-junos"` on the statement
     Rebind,
+    /// `xmlns:k="<jcmd namespace>"` on the statement; at configuration level `k` is bound to
+    /// `urn:example:not-junos`, so only a statement that declares it itself has jcmd `k:` attributes
+    LocalNs,
+    /// `k:comment`
+    KComment(String),
     Other(u8),
     Raw(String),
 }
@@ -80,6 +85,8 @@ impl GAttr {
             GAttr::AltActive(v) => format!("B{}", hexs(v)),
             GAttr::AltComment(v) => format!("P{}", hexs(v)),
             GAttr::Rebind => "R".into(),
+            GAttr::LocalNs => "L".into(),
+            GAttr::KComment(v) => format!("K{}", hexs(v)),
             GAttr::Other(k) => format!("O{k}"),
             GAttr::Raw(v) => format!("Z{}", hexs(v)),
         }
@@ -93,6 +100,8 @@ impl GAttr {
             "B" => GAttr::AltActive(unhexs(t)?),
             "P" => GAttr::AltComment(unhexs(t)?),
             "R" if t.is_empty() => GAttr::Rebind,
+            "L" if t.is_empty() => GAttr::LocalNs,
+            "K" => GAttr::KComment(unhexs(t)?),
             "O" => GAttr::Other(t.parse().ok()?),
             "Z" => GAttr::Raw(unhexs(t)?),
             _ => return None,
@@ -100,9 +109,11 @@ impl GAttr {
     }
     /// token of the abstract description handed to `fetch spec`; `rebound`: the statement binds the
     /// prefix `jcmd` to another namespace, so its `jcmd:` attributes are not jcmd attributes
-    fn spec_token(&self, rebound: bool) -> Option<String> {
+    fn spec_token(&self, rebound: bool, local_k: bool) -> Option<String> {
         match self {
-            GAttr::Ns | GAttr::Other(_) | GAttr::Rebind => Some("O".into()),
+            GAttr::Ns | GAttr::Other(_) | GAttr::Rebind | GAttr::LocalNs => Some("O".into()),
+            GAttr::KComment(v) if local_k => Some(format!("C{}", hexs(v))),
+            GAttr::KComment(_) => Some("O".into()),
             GAttr::Active(_) | GAttr::Comment(_) if rebound => Some("O".into()),
             GAttr::Active(_) | GAttr::Comment(_) => Some(self.token()),
             GAttr::AltActive(v) => Some(format!("A{}", hexs(v))),
@@ -196,7 +207,7 @@ impl GStmt {
         let a = self
             .attrs
             .iter()
-            .map(|a| a.spec_token(rebound))
+            .map(|a| a.spec_token(rebound, self.attrs.iter().any(|x| matches!(x, GAttr::LocalNs))))
             .collect::<Option<Vec<_>>>()?;
         let b = self
             .body
@@ -215,6 +226,9 @@ impl GStmt {
     }
     fn rebinds_jcmd(&self) -> bool {
         self.attrs.iter().any(|a| matches!(a, GAttr::Rebind))
+    }
+    fn uses_k_prefix(&self) -> bool {
+        self.attrs.iter().any(|a| matches!(a, GAttr::KComment(_) | GAttr::LocalNs))
     }
     fn uses_alt_prefix(&self) -> bool {
         self.attrs
@@ -331,6 +345,8 @@ impl Case {
                 GAttr::Comment(v) => out.push_str(&format!("jcmd:comment={}", self.esc_attr(v))),
                 GAttr::AltActive(v) => out.push_str(&format!("j:active={}", self.esc_attr(v))),
                 GAttr::AltComment(v) => out.push_str(&format!("j:comment={}", self.esc_attr(v))),
+                GAttr::LocalNs => out.push_str(&format!("xmlns:k={}", self.quote(JCMD))),
+                GAttr::KComment(v) => out.push_str(&format!("k:comment={}", self.esc_attr(v))),
                 GAttr::Rebind => out.push_str(&format!(
                     "xmlns:jcmd={}",
                     self.esc_attr("urn:example:not-junos")
@@ -420,6 +436,11 @@ impl Case {
                 String::new()
             }
         );
+        let conf_attrs = if self.stmts.iter().any(|s| s.uses_k_prefix()) {
+            format!("{conf_attrs} xmlns:k=\"urn:example:not-junos\"")
+        } else {
+            conf_attrs
+        };
         let mut po = String::new();
         let n = self.stmts.len();
         let mut second = String::new();
@@ -538,7 +559,7 @@ fn oracle_from_case(c: &Case) -> String {
     let mut pq = vec![];
     for s in &c.stmts {
         for a in &s.attrs {
-            if let GAttr::Comment(v) | GAttr::AltComment(v) = a {
+            if let GAttr::Comment(v) | GAttr::AltComment(v) | GAttr::KComment(v) = a {
                 if let Some(raw) = annotation_raw(v) {
                     pq.push((raw.to_string(), parse_display(raw)));
                 }
@@ -808,6 +829,32 @@ fn exhaustive(opts: &Opts) -> Vec<Case> {
             attrs: vec![GAttr::Rebind, GAttr::Comment(PLAIN.into())],
             body: std_body("n0"),
         }]));
+        // a SELECTED statement that binds its annotation prefix itself (as Junos does), followed by a
+        // statement that uses the same prefix without declaring it: there the prefix has its outer
+        // meaning (another namespace), the attribute is no annotation, the statement is not managed
+        for first_body in [std_body("n0"), vec![GBody::Name("n0".into()), GBody::Then("a".into())]] {
+            cases.push(plain_case(vec![
+                GStmt {
+                    attrs: vec![GAttr::LocalNs, GAttr::KComment(GOOD.into())],
+                    body: first_body.clone(),
+                },
+                GStmt {
+                    attrs: vec![GAttr::KComment(GOOD.into())],
+                    body: std_body("outer-meaning"),
+                },
+                witness.clone(),
+            ]));
+        }
+        cases.push(plain_case(vec![
+            GStmt {
+                attrs: vec![GAttr::KComment(GOOD.into())],
+                body: std_body("outer-meaning"),
+            },
+            GStmt {
+                attrs: vec![GAttr::LocalNs, GAttr::KComment(GOOD.into())],
+                body: std_body("n0"),
+            },
+        ]));
         // … FOLLOWED by ordinary statements: a namespace declaration is in scope for its element only,
         // so the binding made on a statement that is skipped must be gone for its later siblings
         let late = GStmt {
